@@ -397,3 +397,17 @@ T('c04-twin-make-guard-split', 'C04', [(FU, """        if (new_predicate not in 
           continue
         if (set(args_map.values()) & needs_building):
           continue""")])
+
+# ---------------------------------------------------------------- C07 / C20
+M('c07-set-unsorted', 'C07', [(SQ, "    return json.dumps(sorted(\n        self.result, key=lambda x: (x is None, DeFactoType(x), x)))", "    return json.dumps(list(self.result))")], 'C07-R1')
+M('c07-set-type-key-only', 'C07', [(SQ, "key=lambda x: (x is None, DeFactoType(x), x)))", "key=lambda x: (x is None, DeFactoType(x))))")], 'C07-R1')
+M('c07-argmin-unsorted', 'C07', [(SQ, "    return json.dumps([x[1] for x in sorted(self.result)])", "    return json.dumps([x[1] for x in self.result])")], 'C07-R1')
+M('c07-unnesting-order', 'C07', [(RT, "      for v, u in sorted(unnesting_of.items()):", "      for v, u in unnesting_of.items():")], 'C07-R2')
+T('c07-twin-argmax-sort-reverse', 'C07', [(SQ, "      return json.dumps([x[1] for x in reversed(sorted(self.result))])", "      return json.dumps([x[1] for x in sorted(self.result, reverse=True)])")])
+M('c20-unregistered-function', 'C20', [(DI, "        'Sort': 'SortList({0})',\n        'MagicalEntangle': 'MagicalEntangle({0}, {1})',\n        'Format': 'Printf(%s)',\n        'Least': 'MIN(%s)',", "        'Sort': 'SORT_LIST({0})',\n        'MagicalEntangle': 'MagicalEntangle({0}, {1})',\n        'Format': 'Printf(%s)',\n        'Least': 'MIN(%s)',")], 'C20-R1')
+M('c20-registration-renamed', 'C20', [(SQ, "  con.create_function('IN_LIST', 2, InList)", "  con.create_function('INLIST', 2, InList)")], 'C20-R1')
+M('c20-registration-arity', 'C20', [(SQ, "  con.create_function('JOIN_STRINGS', 2, Join)", "  con.create_function('JOIN_STRINGS', 1, Join)")], 'C20-R1')
+M('c20-aggregate-arity', 'C20', [(SQ, "  con.create_aggregate('ArgMin', 3, ArgMin)", "  con.create_aggregate('ArgMin', 2, ArgMin)")], 'C20-R1')
+M('c20-sqlexpr-placeholder', 'C20', [('compiler/dialect_libraries/sqlite_library.py', 'SqlExpr("ArgMax({a}, {v}, {k})", {a:, v:, k:})', 'SqlExpr("ArgMax({a}, {v}, {lim})", {a:, v:, k:})')], 'C20-R2')
+M('c20-set-as-scalar', 'C20', [(SQ, "  con.create_aggregate('DistinctListAgg', 1, DistinctListAgg)", "  con.create_function('DistinctListAgg', 1, DistinctListAgg)")], 'C20-R1')
+T('c20-twin-case', 'C20', [(DI, "        'Sort': 'SortList({0})',\n        'MagicalEntangle': 'MagicalEntangle({0}, {1})',\n        'Format': 'Printf(%s)',\n        'Least': 'MIN(%s)',", "        'Sort': 'SORTLIST({0})',\n        'MagicalEntangle': 'MagicalEntangle({0}, {1})',\n        'Format': 'Printf(%s)',\n        'Least': 'MIN(%s)',")])
